@@ -113,7 +113,7 @@ pub fn gen_send(rng: &mut Rng) -> String {
     let mut evs: Vec<String> = vec![];
     if check {
         match rng.below(12) {
-            0 => evs.push(ev_d(0, &raw_error(0, "no"))),
+            0 => evs.push(ev_d(0, &raw_error_variant(0, rng.below(6)))),
             1 => evs.push(ev_d(0, &ack(rng.range(1, 3)))),
             2 => evs.push(format!("e{}", tmo)),
             3 => evs.push(ev_d(0, &stray(rng))),
@@ -142,7 +142,7 @@ pub fn gen_send(rng: &mut Rng) -> String {
                     acked = hi;
                 }
                 8 => {
-                    evs.push(ev_d(d, &raw_error(3, "full")));
+                    evs.push(ev_d(d, &raw_error_variant(3, rng.below(6))));
                     break;
                 }
                 9 => evs.push(ev_d(d, &data(acked + 1, vec![1, 2, 3]))),
@@ -225,7 +225,8 @@ pub fn gen_recv(rng: &mut Rng) -> String {
     let clean = !rng.chance(1, 4);
     let size = pick_size(rng, blk, ws);
     let seed = rng.below(256);
-    let content = pattern(seed, size);
+    // one case in eight: a file of one repeated byte (adjacent blocks, also across window boundaries, are identical)
+    let content = if rng.chance(1, 8) { vec![*rng.pick(&[0u8, 0xff, 0x41]); size as usize] } else { pattern(seed, size) };
     let nblk = size / blk + 1;
     let fault_rate = *rng.pick(&[0u64, 0, 5, 15, 40]);
     let chunk = |k: u64| -> Vec<u8> {
@@ -272,7 +273,7 @@ pub fn gen_recv(rng: &mut Rng) -> String {
                     k += 1;
                 }
                 8 => {
-                    evs.push(ev_d(0, &raw_error(0, "abort")));
+                    evs.push(ev_d(0, &raw_error_variant(0, rng.below(6))));
                     aborted = true;
                     break;
                 }
@@ -419,6 +420,7 @@ pub fn generate(suite: &str, seed: u64, count: u64, tier: &str) -> Vec<String> {
         "win" => out = crate::winsuite::gen_win(&mut rng, count, tier),
         "cfg" => out = crate::cfgsuite::gen_cfg(&mut rng, count, tier),
         "srv" => out = crate::srvsuite::gen_srv(&mut rng, count, tier),
+        "srv-rt" => out = crate::srvsuite::gen_srv_rt(&mut rng, count, tier),
         "pair" => out = crate::pairsuite::gen_pair(&mut rng, count, tier),
         "conc" => out = crate::concsuite::gen_conc(&mut rng, count, tier),
         "cli" => out = crate::clisuite::gen_cli(&mut rng, count, tier),
